@@ -391,9 +391,11 @@ def step (st : St) (cmd : String) (impl : String) : St × Verdict :=
   -- known finding D-MERGE-NOLOCK; the model cannot predict it, so the answer is taken as an input
   let a1 := parseBytes ((words cmd).getD 1 "-")
   let want := (out.expect.map (·.want)).getD ""
-  let staleRead := sp1.concMerge && specOk == some false && vm.model != impl && (op == "get" || op == "getall" || op == "range") &&
+  let staleRead := sp1.concMerge && specOk == some false && vm.model != impl &&
+    (op == "get" || op == "getall" || op == "range" || op == "prefix" || op == "psearch") &&
     DBSpec.staleExplains sp1.hist a1 (DBSpec.parsePairs (if op == "get" then "[" ++ resPayload impl ++ "]" else resPayload impl))
       (DBSpec.parsePairs (if op == "get" then "[" ++ resPayload want ++ "]" else resPayload want))
+      (DBSpec.parsePairs (if op == "get" then "[" ++ resPayload vm.model ++ "]" else resPayload vm.model))
   if staleRead || (sp1.concMerge && op == "obs") then
     ({ st1 with sp := sp2 }, { vm with model := impl, specOk := if op == "obs" then none else specOk, spec := want, tag := "finding:D-MERGE-NOLOCK" })
   else
